@@ -31,7 +31,7 @@ LEVEL_NOTE = ('trusted base: vf/exactq.py + vf/exact_strings.py (Python int arit
               'for |E| > 2*10^5 the comparison uses a rigorous integer enclosure and may be undecided')
 TECHNIQUE = 'runtime reference-model monitor: exact rational oracle on every observed string conversion'
 
-CASES = {'quick': 40000, 'thorough': 400000}
+CASES = {'quick': 32000, 'thorough': 400000}
 FORMS = ['int', 'fixed', 'exp-small', 'exp-env', 'exp-switch', 'exp-big', 'exp-astro', 'frac', 'tie', 'tie-long', 'grid',
          'grid-long', 'decor', 'zero', 'fixed-long', 'iv']
 IV_FORMS = ['plain', 'pm', 'paren', 'pm%', 'paren%', 'brackets', 'shared', 'list']
